@@ -312,7 +312,11 @@ func runCheck(cmd, prop, tier, repo, root, only string, keep, verbose, writeExpe
 			if best.Result != "unsat" {
 				best, allr = discharge(q, smtDir, o.Name, max(3, timeout/3), false)
 			}
-			if best.Result != "unsat" && best.Result != "sat" {
+			if best.Result != "unsat" && best.Result != "sat" && os.Getenv("VERIF_FAST_FAIL") != "" {
+				// must-fail corpus runs: an obligation that is not discharged by the first stages is reported
+				// as undischarged right away (never used for the registered checks)
+				best.Result = "unknown"
+			} else if best.Result != "unsat" && best.Result != "sat" {
 				if r, ok := splitDischarge(o, smtDir, max(3, timeout/2)); ok {
 					best = r
 					allr = append(allr, r)
